@@ -3,8 +3,12 @@
 import sys, os, json, subprocess, shutil
 pid, name, det = sys.argv[1], sys.argv[2], sys.argv[3]
 wt = sys.argv[4] if len(sys.argv) > 4 else '/tmp/seed/' + pid
-r = subprocess.run([sys.executable, os.path.join(os.path.dirname(__file__), 'confirm_seed.py'), pid, wt], capture_output=True, text=True)
-d = json.loads(r.stdout)
+cached = os.path.join(os.path.dirname(wt.rstrip('/')), 'confirm_%s.json' % pid)
+if os.environ.get('USE_CACHED_CONFIRM') and os.path.exists(cached):
+    d = json.load(open(cached))      # written by a parallel run of confirm_seed.py on the same worktree
+else:
+    r = subprocess.run([sys.executable, os.path.join(os.path.dirname(__file__), 'confirm_seed.py'), pid, wt], capture_output=True, text=True)
+    d = json.loads(r.stdout)
 if not d['confirmed']:
     print('NOT CONFIRMED', json.dumps(d, indent=1)); sys.exit(1)
 dst = os.path.join('/verif/seeded', name)
